@@ -586,12 +586,51 @@ func bubbleStates(dump string) string {
 	if !mutex {
 		return ""
 	}
-	sort.Strings(out)
+	// the mutex waiters first: the signature is taken from them and the text may be cut
+	isMu := func(g string) bool { return strings.HasPrefix(g, "[sync.Mutex") || strings.HasPrefix(g, "[sync.RWMutex") }
+	sort.Slice(out, func(i, j int) bool {
+		if isMu(out[i]) != isMu(out[j]) {
+			return isMu(out[i])
+		}
+		return out[i] < out[j]
+	})
 	s := strings.Join(out, "\n\n")
 	if len(s) > 5000 {
 		s = s[:5000] + "…"
 	}
 	return s
+}
+
+// FirstLibFrame names the first library function in a dump.
+func FirstLibFrame(dump string) string { return firstLibFrame(dump) }
+
+// MutexWaiters is for scenarios outside a bubble: the stacks (ids and wait times stripped, sorted)
+// of goroutines that wait for a sync.Mutex/RWMutex with a library frame on their stack, or ""
+// when there is none or when some goroutine is running/runnable inside library code (it may
+// release the mutex).
+func MutexWaiters(dump string) string {
+	var out []string
+	for _, g := range strings.Split(dump, "\n\n") {
+		head, rest, _ := strings.Cut(g, "\n")
+		if outermostLibFrame(rest) == "?" {
+			continue
+		}
+		if strings.Contains(head, "[running") || strings.Contains(head, "[runnable") || strings.Contains(head, "[syscall") {
+			return ""
+		}
+		if !strings.Contains(head, "sync.Mutex.Lock") && !strings.Contains(head, "sync.RWMutex") {
+			continue
+		}
+		if i := strings.Index(head, "["); i >= 0 {
+			head = head[i:]
+		}
+		if j := strings.Index(head, ","); j >= 0 {
+			head = head[:j] + "]"
+		}
+		out = append(out, head+"\n"+rest)
+	}
+	sort.Strings(out)
+	return strings.Join(out, "\n\n")
 }
 
 func firstLibFrame(dump string) string {
